@@ -10,6 +10,12 @@ CHECKS = {
          "6", "bounded-exhaustive enumeration of pairs with canonical-form oracle"),
  "C05": ("all ordered pairs x 7 option sets + Precision + hash-alias alphabet: Diff-empty <=> Equals <=> reference equality; plus CLI exit status over a reduced pair set x flags x formats x both binaries",
          "6", "bounded-exhaustive enumeration of pairs; process-level exit-status leg"),
+ "C03": ("every sub-sequence of the hunks of every list-mode diff of the universes applied by the real Patch to a, b and every target within 1 (thorough: 2) structural edits of a, plus all U_n triples; accept/reject and result compared with an independent hunk interpreter written from the format documentation",
+         "6", "deviation-bounded exhaustive enumeration of (diff sub-sequence, target) with reference hunk interpreter"),
+ "C06": ("all ordered pairs of arrays over small alphabets with repeats (root + 3 nested placements) and of general documents: per array level removes/adds versus len-LCS from an independent DP, recursion into same-position containers, exactly one before/after context entry, context validated by replay through the reference interpreter",
+         "6", "bounded-exhaustive enumeration of array pairs with LCS oracle and hunk-interpreter replay"),
+ "C07": ("all ordered pairs x 6 option sets: per-hunk provenance replay (removed values come from a, added values survive into b, nothing listed on both sides, no hunk where a and b agree) and every leave-one-out sub-diff applied by the real Patch",
+         "6", "bounded-exhaustive enumeration of pairs; per-hunk provenance replay and leave-one-out on the real code"),
 }
 NOT_YET = {}
 def main():
